@@ -514,7 +514,7 @@ func checkSide(run *MixRun) {
 			expect := true
 			if h.side == 's' {
 				side = "server"
-				expect = r.HInvoked == 1
+				expect = reached
 				succeeded = r.HReturned && r.HRetErr == nil
 			} else {
 				err, ok := callerErr(r)
